@@ -271,6 +271,16 @@ func regHooks(prop string) Hooks {
 					if !bt.OK && reg != nil && o.Named.Key() != reg.Owner {
 						w.Class("c09.non-owner-attempt")
 					}
+					// "stores ... the signer as owner": the registered owner is never told that it is not the owner
+					if !bt.OK && reg != nil && len(bt.Ops) == 1 && bt.Tx.Wrap == WrapTop && bt.AntePassed && o.Named.Key() == reg.Owner && o.Signer.Key() == reg.Owner && (kind == WrkRec || kind == BcnRec || kind == WrkPur || kind == BcnPur) {
+						notOwner := (bt.Res.Codespace == wrkchaintypes.ErrNotWrkChainOwner.Codespace() && bt.Res.Code == wrkchaintypes.ErrNotWrkChainOwner.ABCICode()) ||
+							(bt.Res.Codespace == beacontypes.ErrNotBeaconOwner.Codespace() && bt.Res.Code == beacontypes.ErrNotBeaconOwner.ABCICode())
+						if notOwner {
+							w.Fail("C09", "%s %d: the account that registered it (%s) is refused as 'not the owner' (%s)", modName(m.Beacon), reg.ID, reg.OwnerStr, short(bt.Log))
+							return
+						}
+						w.Class("c09.owner-op-failed-for-another-reason")
+					}
 					if bt.OK && (kind == WrkReg || kind == BcnReg) {
 						w.Class("c09.registration")
 					}
